@@ -109,6 +109,7 @@ func c14Encode(c *mc.Ctx, ds []*astits.Descriptor, lengthMode int, what string) 
 }
 
 func checkC14(c *mc.Ctx) {
+	checkSpecConstants(c, "descriptors", specConstsDescriptors())
 	c.Ev.Level = "exploration"
 	c.Ev.Rule = "bounded-exhaustive descriptor model space per tag (all flag subsets, numeric fields over boundary alphabets, variable parts over length alphabets up to the 255-byte limit, 0..max loop items), decoded from the reference encoding and encoded against it with the struct Length correct / 0 / wrong; all ordered pairs of tags and a rotating set of triples in one loop; malformed input: declared length shorter/longer than the body for every tag followed by a sentinel; distinct_nontrivial = distinct model descriptors / loops"
 	c.Ev.Assumptions = append(c.Ev.Assumptions, "maximum-bitrate values are multiples of 50; teletext pages 0..99; language/country codes 3 bytes; ISO 639 descriptor with one entry",
